@@ -776,7 +776,7 @@ pub fn run(mut ctx: Ctx) -> ! {
             None => ctx.harness_error(format!("replay file names unknown engine {engine:?}")),
         }
     } else {
-        let cases = ctx.tier.scale(30_000, 250_000);
+        let cases = ctx.tier.scale(30_000, 500_000);
         for (name, clause) in ENGINES {
             ctx.run_tapes(name, cases, 400, |t| check_case(t, clause));
         }
